@@ -79,6 +79,20 @@ ChildEvent(e) ==
                                      /\ e.out.pub = e.facts.child_pub.pub
               ELSE ~e.out.ok /\ e.out.err = "perm"
 
+\* a plug-in curve that rejects the first `deep` candidates (thousands): the retry goes on until a candidate is valid.
+\* Logged: the last three links of the reference chain, the number of candidates the curve was asked about, the last one.
+DeepEvent(e) ==
+  LET t == e.facts.tail n == Len(t) master == e.in.level = "master"
+      par == SubSeq(e.in.seed, 1, 32)
+  IN /\ e.out.panic = "" /\ e.out.ok
+     /\ e.out.ncalls = e.in.deep + 1                               \* every rejected candidate, then the accepted one
+     /\ n >= 2 /\ \A k \in 1..(n - 1) : /\ t[k + 1].key = t[k].key
+                                       /\ t[k + 1].data = (IF master THEN MasterRetryData(t[k].out) ELSE ChildRetryData(t[k].out, <<1, 5>>))
+     /\ t[n].key = (IF master THEN SeedKey("toy") ELSE par)
+     /\ e.out.last_call = Left(t[n].out)
+     /\ e.out.chain = Right(t[n].out)
+     /\ e.out.key = (IF master THEN Left(t[n].out) ELSE AddBytes(par, Left(t[n].out)))
+
 \* deriving along p then i equals deriving along p followed by i
 PathEvent(e) ==
   /\ e.out.panic = "" /\ e.out.direct_ok = e.out.step_ok
@@ -88,6 +102,7 @@ Conforms(e) ==
   CASE e.op = "slip10.master" -> MasterEvent(e)
     [] e.op = "slip10.child" -> ChildEvent(e)
     [] e.op = "slip10.path" -> PathEvent(e)
+    [] e.op = "slip10.deep" -> DeepEvent(e)
     [] OTHER -> FALSE
 
 Init == l = 1 /\ bad = <<>>
